@@ -216,6 +216,14 @@ impl ServerState {
                             }
                         }
 
+                        // A cancellation request that was raised before this message was received cannot be
+                        // meant for it: the handler that raised it sends its own request afterwards. Without
+                        // this reset a handler that saw `is_compiling == true` just before the previous
+                        // compilation finished would abort the compilation of its own (latest) request.
+                        #[cfg(fuellabs_sway_verif)]
+                        crate::verif::point("worker:retrigger=false(start)", verif_id);
+                        retrigger_compilation.store(false, Ordering::SeqCst);
+
                         // Set the is_compiling flag to true so that the wait_for_parsing function knows that we are compiling
                         #[cfg(fuellabs_sway_verif)]
                         crate::verif::point("worker:is_compiling=true", verif_id);
